@@ -38,9 +38,15 @@ type RetryParams struct {
 	// ViaRepo: the first request is a blob upload made by remote.Repository.Push through
 	// this client stack (POST for the session, then the PUT the behaviours apply to). Body
 	// "seekable" is then a ReadSeeker positioned behind a header inside a larger stream.
-	ViaRepo bool  `json:"via_repo,omitempty"`
-	Cache   bool  `json:"cache,omitempty"`
-	Probe   []int `json:"probe,omitempty"` // attempt numbers for which the policy is asked directly
+	ViaRepo bool `json:"via_repo,omitempty"`
+	// Early: failing answers (4xx/5xx) are sent after the first 16 body bytes; the rest of
+	// that attempt's body is drained by the server while the client goes on
+	Early bool `json:"early,omitempty"`
+	// Manifest (with ViaRepo): the upload is a manifest push (PUT /manifests/<digest>), whose
+	// streamed content the client buffers so that it can be sent again
+	Manifest bool  `json:"manifest,omitempty"`
+	Cache    bool  `json:"cache,omitempty"`
+	Probe    []int `json:"probe,omitempty"` // attempt numbers for which the policy is asked directly
 	// More: further requests sent through the same client after the first one
 	// (cached schemes and tokens come into play)
 	More []MoreReq `json:"more,omitempty"`
@@ -108,7 +114,12 @@ func (p *retryProp) Gen(r *Rand, tier string, idx int) any {
 		rp.ViaRepo = true
 		if r.Chance(0.4) {
 			rp.Body = "seekable"
+		} else if r.Chance(0.4) {
+			rp.Manifest = true
 		}
+	}
+	if rp.Body != "none" && rp.BodySize > 16 && r.Chance(0.25) {
+		rp.Early = true
 	}
 	rp.Cache = r.Bool()
 	if r.Chance(0.4) {
@@ -175,7 +186,8 @@ type attemptRec struct {
 	authz     string
 	body      []byte
 	hadBody   bool
-	idx       int // position in order of arrival
+	idx       int  // position in order of arrival
+	early     bool // answered after the first bytes of the body; the rest was drained later
 	behaviour string
 	status    int
 	errKind   string
@@ -198,90 +210,143 @@ type retryServer struct {
 const retryUser, retryPass = "retry-user", "retry-pass"
 
 func (s *retryServer) RoundTrip(req *http.Request) (*http.Response, error) {
-	var body []byte
-	had := false
-	if req.Body != nil && req.Body != http.NoBody {
-		had = true
-		body, _ = io.ReadAll(req.Body)
-		req.Body.Close()
-	}
 	simrt.Yield("http." + req.Method)
+	hasBody := req.Body != nil && req.Body != http.NoBody
+	readAll := func() []byte {
+		if !hasBody {
+			return nil
+		}
+		defer req.Body.Close()
+		if !s.rp.Early {
+			b, _ := io.ReadAll(req.Body)
+			return b
+		}
+		// in a few reads, with scheduling points in between: another reader of the same
+		// bytes (an earlier attempt still being drained) gets its chance
+		var out []byte
+		buf := make([]byte, int(req.ContentLength)/3+16)
+		for {
+			n, err := req.Body.Read(buf)
+			out = append(out, buf[:n]...)
+			if err != nil {
+				return out
+			}
+			simrt.Yield("http.body")
+		}
+	}
 	s.mu.Lock()
-	defer s.mu.Unlock()
-	rec := &attemptRec{at: time.Since(s.start), authz: req.Header.Get("Authorization"), body: body, hadBody: had, req: s.cur, idx: len(s.attempts)}
-	if err := req.Context().Err(); err != nil {
+	rec := &attemptRec{at: time.Since(s.start), authz: req.Header.Get("Authorization"), hadBody: hasBody, req: s.cur, idx: len(s.attempts)}
+	s.attempts = append(s.attempts, rec)
+	var status int
+	var hdr http.Header
+	var respBody string
+	var respErr error
+	plan := func(st int, h http.Header, b string) {
+		if st == 200 && req.Method == http.MethodPut && (strings.Contains(req.URL.Path, "/blobs/uploads/") || strings.Contains(req.URL.Path, "/manifests/sha256:")) {
+			st = 201 // a completed upload
+		}
+		status, hdr, respBody = st, h, b
+	}
+	wantBasic := "Basic " + base64.StdEncoding.EncodeToString([]byte(retryUser+":"+retryPass))
+	switch {
+	case req.Context().Err() != nil:
 		// handed to the base transport although the context has ended: an attempt all the same
 		rec.errKind = "ctx-ended"
 		rec.token = strings.HasPrefix(req.URL.Path, "/token")
-		s.attempts = append(s.attempts, rec)
-		return nil, err
-	}
-	mk := func(status int, hdr http.Header, b string) (*http.Response, error) {
-		if status == 200 && req.Method == http.MethodPut && strings.Contains(req.URL.Path, "/blobs/uploads/") {
-			status = 201 // a completed blob upload
-		}
-		rec.status = status
-		if hdr == nil {
-			hdr = http.Header{}
-		}
-		return &http.Response{StatusCode: status, Status: http.StatusText(status), Header: hdr, Body: io.NopCloser(strings.NewReader(b)), ContentLength: int64(len(b)), Request: req, Proto: "HTTP/1.1", ProtoMajor: 1, ProtoMinor: 1}, nil
-	}
-	if req.Method == http.MethodPost && strings.HasSuffix(req.URL.Path, "/blobs/uploads/") {
+		respErr = req.Context().Err()
+	case req.Method == http.MethodPost && strings.HasSuffix(req.URL.Path, "/blobs/uploads/"):
 		// opening an upload session: not one of the attempts the behaviours script
 		rec.token = true
-		s.attempts = append(s.attempts, rec)
-		return mk(202, http.Header{"Location": {"/v2/r/blobs/uploads/session-1"}}, "")
-	}
-	if strings.HasPrefix(req.URL.Path, "/token") {
+		plan(202, http.Header{"Location": {"/v2/r/blobs/uploads/session-1"}}, "")
+	case strings.HasPrefix(req.URL.Path, "/token"):
 		rec.token = true
-		s.attempts = append(s.attempts, rec)
 		s.tokens++
 		// every fetch yields a new token, so that each re-send carries its own Authorization value
-		return mk(200, nil, fmt.Sprintf(`{"access_token":"retry-token-%d"}`, s.tokens))
-	}
-	s.attempts = append(s.attempts, rec)
-	b := "200"
-	if s.next < len(s.beh) {
-		b = s.beh[s.next]
-		s.next++
-	}
-	rec.behaviour = b
-	simrt.Note("retry server: attempt %d at %v behaviour %s body=%d authz=%q", len(s.attempts), rec.at, b, len(body), rec.authz)
-	wantBasic := "Basic " + base64.StdEncoding.EncodeToString([]byte(retryUser+":"+retryPass))
-	switch {
-	case b == "401-basic":
-		if rec.authz == wantBasic {
-			return mk(200, nil, "ok")
+		plan(200, nil, fmt.Sprintf(`{"access_token":"retry-token-%d"}`, s.tokens))
+	default:
+		b := "200"
+		if s.next < len(s.beh) {
+			b = s.beh[s.next]
+			s.next++
 		}
-		return mk(401, http.Header{"Www-Authenticate": {`Basic realm="r"`}}, "")
-	case b == "401-bearer":
-		if strings.HasPrefix(rec.authz, "Bearer retry-token-") {
-			return mk(200, nil, "ok")
+		rec.behaviour = b
+		switch {
+		case b == "401-basic":
+			if rec.authz == wantBasic {
+				plan(200, nil, "ok")
+			} else {
+				plan(401, http.Header{"Www-Authenticate": {`Basic realm="r"`}}, "")
+			}
+		case b == "401-bearer":
+			if strings.HasPrefix(rec.authz, "Bearer retry-token-") {
+				plan(200, nil, "ok")
+			} else {
+				plan(401, http.Header{"Www-Authenticate": {`Bearer realm="https://retry.test/token",service="retry.test",scope="repository:r:pull"`}}, "")
+			}
+		case b == "408":
+			plan(408, nil, "")
+		case strings.HasPrefix(b, "429"):
+			h := http.Header{}
+			if i := strings.Index(b, ":"); i >= 0 {
+				h.Set("Retry-After", b[i+1:])
+				rec.retryAftr, _ = strconv.Atoi(b[i+1:])
+			}
+			plan(429, h, "")
+		case b == "500":
+			plan(500, nil, "")
+		case b == "503":
+			plan(503, nil, "")
+		case b == "404":
+			plan(404, nil, "")
+		case b == "timeout":
+			rec.errKind = "timeout"
+			respErr = timeoutErr{}
+		case b == "neterr":
+			rec.errKind = "neterr"
+			respErr = errors.New("simulated connection refused")
+		default:
+			plan(200, nil, "ok")
 		}
-		return mk(401, http.Header{"Www-Authenticate": {`Bearer realm="https://retry.test/token",service="retry.test",scope="repository:r:pull"`}}, "")
-	case b == "408":
-		return mk(408, nil, "")
-	case strings.HasPrefix(b, "429"):
-		h := http.Header{}
-		if i := strings.Index(b, ":"); i >= 0 {
-			h.Set("Retry-After", b[i+1:])
-			rec.retryAftr, _ = strconv.Atoi(b[i+1:])
-		}
-		return mk(429, h, "")
-	case b == "500":
-		return mk(500, nil, "")
-	case b == "503":
-		return mk(503, nil, "")
-	case b == "404":
-		return mk(404, nil, "")
-	case b == "timeout":
-		rec.errKind = "timeout"
-		return nil, timeoutErr{}
-	case b == "neterr":
-		rec.errKind = "neterr"
-		return nil, errors.New("simulated connection refused")
 	}
-	return mk(200, nil, "ok")
+	early := s.rp.Early && hasBody && respErr == nil && status >= 400 && !rec.token
+	s.mu.Unlock()
+
+	if early {
+		// the server has made up its mind after the first bytes and answers at once; the rest
+		// of the body is drained afterwards, while the client may already be sending again
+		head := make([]byte, 16)
+		n, _ := io.ReadFull(req.Body, head)
+		s.mu.Lock()
+		rec.body, rec.early = head[:n], true
+		s.mu.Unlock()
+		body := req.Body
+		simrt.Go(func() {
+			buf := make([]byte, 4096)
+			for {
+				simrt.Yield("http.drain")
+				if _, err := body.Read(buf); err != nil {
+					break
+				}
+			}
+			body.Close()
+		})
+	} else {
+		b := readAll()
+		s.mu.Lock()
+		rec.body = b
+		s.mu.Unlock()
+	}
+	s.mu.Lock()
+	rec.status = status
+	simrt.Note("retry server: attempt %d at %v behaviour %s body=%d early=%v authz=%q -> %d %v", rec.idx+1, rec.at, rec.behaviour, len(rec.body), rec.early, rec.authz, status, respErr)
+	s.mu.Unlock()
+	if respErr != nil {
+		return nil, respErr
+	}
+	if hdr == nil {
+		hdr = http.Header{}
+	}
+	return &http.Response{StatusCode: status, Status: http.StatusText(status), Header: hdr, Body: io.NopCloser(strings.NewReader(respBody)), ContentLength: int64(len(respBody)), Request: req, Proto: "HTTP/1.1", ProtoMajor: 1, ProtoMinor: 1}, nil
 }
 
 // recordingPolicy hands the real policy's decisions through and notes each pause it
@@ -442,6 +507,10 @@ func (p *retryProp) run(rc *RunCtx, rp *RetryParams, info *RunInfo) *Verdict {
 				content = rs
 			}
 			d := ocispec.Descriptor{MediaType: "application/octet-stream", Digest: digest.FromBytes(payload), Size: int64(len(payload))}
+			if rp.Manifest {
+				d.MediaType = "application/vnd.example.manifest.v1+json" // a manifest type without client-side referrers handling
+				repo.ManifestMediaTypes = []string{d.MediaType}
+			}
 			doErr = repo.Push(ctx, d, content)
 			returnedAt = time.Since(srv.start)
 			info.Probes["upload_through_repository"]++
@@ -512,6 +581,8 @@ func (p *retryProp) run(rc *RunCtx, rp *RetryParams, info *RunInfo) *Verdict {
 		if reqIdx > 0 {
 			m := rp.More[reqIdx-1]
 			bodyKind, payload = m.Body, morePayload(m)
+		} else if rp.ViaRepo && rp.Manifest && bodyKind == "oneshot" {
+			bodyKind = "replayable" // the client buffers a streamed manifest so that it can send it again
 		}
 		// group resource attempts into sends by Authorization header
 		var sends [][]*attemptRec
@@ -535,7 +606,13 @@ func (p *retryProp) run(rc *RunCtx, rp *RetryParams, info *RunInfo) *Verdict {
 					if ai > 0 || si > 0 {
 						retried = true
 					}
-					if !bytes.Equal(a.body, payload) {
+					if a.early {
+						// answered before the body had been read: what was read of it is a prefix
+						if !bytes.HasPrefix(payload, a.body) {
+							return violation("body-not-rewound", "", "attempt %d of send %d began with bytes that are not the beginning of the body\n%s", ai+1, si+1, describe())
+						}
+						info.Probes["answered_before_body_was_read"]++
+					} else if !bytes.Equal(a.body, payload) {
 						if bodyKind == "oneshot" || bodyKind == "seekable" {
 							return violation("one-shot-body-resent-truncated", "", "attempt %d of send %d carried %d of %d body bytes of a body that cannot be replayed\n%s", ai+1, si+1, len(a.body), len(payload), describe())
 						}
